@@ -338,7 +338,11 @@ def gen_case(rng, npol, tier):
     mode = "deliver"
     if n == 1 and rng.random() < 0.3:
         mode = "check"
-    return {"policy": rng.randrange(npol), "chain": chain, "codes": codes, "dns": dns, "mode": mode}
+    case = {"policy": rng.randrange(npol), "chain": chain, "codes": codes, "dns": dns, "mode": mode}
+    if mode == "deliver" and rng.random() < 0.14:
+        # the target's outbound signing cannot succeed: a delivery the policy denies is still a policy denial, one it allows fails unsent
+        case["sign"] = rng.choice(["expired", "future", "missing-ref", "blank-headers"])
+    return case
 
 
 # --------------------------------------------------------------------------
@@ -532,6 +536,9 @@ def main(ctx, replay):
     push = [
         {"policy": 1, "chain": ["http://127.0.0.1/x"], "codes": [], "dns": {}, "mode": "push", "_cls": "literal-loopback"},
         {"policy": 1, "chain": ["ftp://a.example/x"], "codes": [], "dns": {}, "mode": "push", "_cls": "scheme"},
+        {"policy": 1, "chain": ["http://127.0.0.1/x"], "codes": [], "dns": {}, "mode": "push", "sign": "expired", "_cls": "literal-loopback+signing-expired"},
+        {"policy": 4, "chain": ["http://evil.example/x"], "codes": [], "dns": {"evil.example": [{"err": False, "ips": ["08080808"]}]}, "mode": "push",
+         "sign": "missing-ref", "_cls": "deny-host+signing-ref-unloadable"},
         {"policy": 0, "chain": ["http://a.example/x"], "codes": [], "dns": {"a.example": [{"err": False, "ips": ["01010101"]}]}, "mode": "push", "_cls": "https-only"},
         {"policy": 1, "chain": ["http://mixed.example/x"], "codes": [], "dns": {"mixed.example": [{"err": False, "ips": ["01010101", "0a000001"]}]}, "mode": "push", "_cls": "mixed-answers"},
         {"policy": 1, "chain": ["http://m.example/x"], "codes": [], "dns": {"m.example": [{"err": False, "ips": ["00000000000000000000ffff7f000001"]}]}, "mode": "push", "_cls": "mapped-loopback"},
@@ -723,6 +730,26 @@ def main(ctx, replay):
                     mism += 1
                     bad("verdict:%s" % ("allowed-by-code" if r["err_class"] == "" else "refused-by-code"),
                         "checkEgressPolicyURL says %r, model says outcome %d" % (r["err_class"] or "allow", m_out))
+            elif c.get("sign"):
+                denied0 = (m_n == 0 and 1 <= m_out <= 6)
+                dist["sign_fail_cases"] = dist.get("sign_fail_cases", 0) + 1
+                dist["sign_fail_denied"] = dist.get("sign_fail_denied", 0) + (1 if denied0 else 0)
+                if sent:
+                    bad("sent-unsigned:%s" % c["sign"], "a request was sent although the target's signing cannot succeed (%s)" % c["sign"])
+                if c["mode"] == "deliver":
+                    want = "policy_denied" if denied0 else "other"
+                    if r["err_class"] != want:
+                        bad("denied-but-not-policy-denied:%s" % c["sign"] if denied0 else "result-class-signing",
+                            "the policy %s the target and its signing fails (%s): Deliver returned error class %r, want %r - a denied delivery is "
+                            "dead-lettered as policy_denied without retry whatever else is wrong with it" % ("DENIES" if denied0 else "allows", c["sign"], r["err_class"], want))
+                else:
+                    if denied0 and (r.get("state") != "dead" or r.get("dead_reason") != "policy_denied" or r.get("outcomes") != ["dead"]):
+                        bad("push:denied-but-not-policy-denied:%s" % c["sign"], "denied delivery with failing signing ended as state=%s reason=%s outcomes=%s" %
+                            (r.get("state"), r.get("dead_reason"), r.get("outcomes")))
+                if m_n == 0 and r["queries"] != m_queries:
+                    bad("resolver-queries", "resolver was asked %s, model asks %s" % (r["queries"], m_queries))
+                if not problems:
+                    nontrivial.add(C.sha({"p": pols[pi], "chain": c["chain"], "dns": c["dns"], "mode": c["mode"], "sign": c["sign"]}))
             else:
                 if len(sent) != m_n:
                     mism += 1
@@ -739,7 +766,7 @@ def main(ctx, replay):
                             mism += 1
                             bad("status", "Deliver returned status %d, expected %d" % (r["status"], exp_status))
             exp_queries = m_queries * max(1, r.get("attempts") or 1) if c["mode"] == "push" else m_queries
-            if r["queries"] != exp_queries:
+            if not c.get("sign") and r["queries"] != exp_queries:
                 mism += 1
                 bad("resolver-queries", "resolver was asked %s, model asks %s" % (
                     [bytes.fromhex(x).decode("latin-1") for x in r["queries"]], [bytes.fromhex(x).decode("latin-1") for x in m_queries]))
